@@ -77,6 +77,18 @@ def print_assumptions(prop, names):
     return res
 
 
+def clean_cases(prop):
+    """remove the correspondence case files of earlier runs of this property (they are rewritten by every run)"""
+    import glob as _g
+    pre = prop.lower()
+    for f in _g.glob(str(common.CASES / f"{pre}_*")) + _g.glob(str(common.CASES / f"{pre}.*")) \
+            + _g.glob(str(common.CASES / f"assumptions_{prop}.*")) + _g.glob(str(common.CASES / "*.glob")):
+        try:
+            os.remove(f)
+        except OSError:
+            pass
+
+
 def build(ctx, targets):
     with common.build_lock():
         ctx.gen_status = translate.regenerate()
@@ -162,6 +174,7 @@ def main():
         return 2
 
     # 1. regenerate + rebuild the cone of the property's theorems
+    clean_cases(prop)
     build(ctx, [f"theories/Properties/{prop}.vo"] + [f"theories/{t}.vo" for t in getattr(drv, "EXTRA_TARGETS", [])])
     ctx.theorems = theorem_names(prop)
     if ctx.build_ok:
